@@ -75,7 +75,7 @@ def chainOf (E : ReEnv) (cfg : Cfg) (e : Entry) (sr : SReq) : Option (List (Stag
     match routeTagged E cfg.routing sr.req with
     | (.panic _, _) => none
     | (.error code allow, tag) =>
-      some (label .cfilter cfg.cfilters, ⟨.errorWriter, errorScript code allow (errorMessage E cfg.routing sr.req tag)⟩, {})
+      some (label .cfilter cfg.cfilters, ⟨.errorWriter, errorScript code allow (errMsg E cfg sr code tag)⟩, {})
     | (.selected svc rid ps, _) =>
       let selPath : Str :=
         match (cfg.routing.services.flatMap (·.built)).find? (fun r => r.id == rid && r.svc == svc) with
@@ -130,13 +130,20 @@ def enabledFor (E : ReEnv) (cfg : Cfg) (e : Entry) (sr : SReq) : Bool :=
 /-- the default recover handler writes a stack trace: its text is not part of any statement -/
 def opaqueBody (cfg : Cfg) (o : Obs) (panicked : Bool) : Bool := cfg.recover && cfg.recoverScript.isNone && panicked && o.escaped.isNone
 
+/-- the texts of the library's own service-error writer are not part of any property either: with
+    the default ServiceErrorHandler the body of a routing-error response is not compared -/
+def libraryErrorText (E : ReEnv) (cfg : Cfg) (e : Entry) (sr : SReq) : Bool :=
+  !cfg.customErr && (match e with
+    | .dispatch | .serveDispatch => (selectedRoute E cfg sr).isNone
+    | _ => false)
+
 /-- C07 on an observation: a coded body decodes completely to exactly the bytes written — the body of
     the same request with every coding switched off —, the label is right, the coding was asked for
     and enabled; otherwise the body is those bytes and no Content-Encoding was added -/
 def c07Holds (E : ReEnv) (cfg : Cfg) (e : Entry) (sr : SReq) (o : Obs) : Bool :=
   let plain := serve E (noCoding cfg) e {} { sr with acceptEncoding := [] }
   let panicked := (serve E { noCoding cfg with recover := false } e {} { sr with acceptEncoding := [] }).escaped.isSome
-  let bodyOK := opaqueBody cfg o panicked || o.body == plain.rc.body
+  let bodyOK := opaqueBody cfg o panicked || libraryErrorText E cfg e sr || o.body == plain.rc.body
   if o.coded then
     (o.ce == "gzip".toList || o.ce == "deflate".toList) && containsSub o.ce sr.acceptEncoding &&
       enabledFor E cfg e sr && sr.priorEncoding.isEmpty && o.complete && bodyOK && o.acq == 1
